@@ -252,6 +252,14 @@ def wide_pairs(rnd):
     fvar = 'def wide():\n    ' + '; '.join(x.strip() for x in inner) + '; probe = loc_%04d\n    return loc_%04d, loc_0001\n' % (m - 1, m - 1)
     fsrc2 = 'def wide():\n' + '\n'.join(inner) + '\n    probe = loc_%04d\n    return loc_%04d, loc_0001\n' % (m - 1, m - 1)
     out.append((fsrc2, fvar, 'joined-wide-line-in-function'))
+    # a parenthesised decorator on the FIRST statement of a body, its expression moved below the @ and left of the def column
+    for head, var in (('def f(dec):\n', 'dec'), ('for dec in [use]:\n', 'dec'), ('try:\n    pass\nexcept Exception as dec:\n', 'dec'),
+                      ('def f(a, dec=use):\n', 'dec')):
+        one = head + '    @(%s)\n    def g(): pass\n    use(g)\n' % var
+        for k, broken in enumerate(('    @(\n  %s\n    )\n', '    @(\n%s)\n', '    @(\n        %s\n)\n', '    @(  # c\n   %s\n    )\n')):
+            two = head + broken % var + '    def g(): pass\n    use(g)\n'
+            tail = 'f(use)\n' if head.startswith('def') else ''
+            out.append((one + tail, two + tail, 'decorator-expression-below-its-at-%d' % k))
     return out
 
 
